@@ -73,7 +73,10 @@ void rq_gen_transform (vf_rng *r, rq_image *im, int cls, unsigned profile)
         t->matrix[0][2] = frand (r, -3, 6) + (sx < 0 ? 20 * 65536 : 0); t->matrix[1][2] = frand (r, -3, 6) + (sy < 0 ? 8 * 65536 : 0);
         if (vf_chance (r, 1, 3)) { t->matrix[0][2] &= ~0xffff; t->matrix[1][2] &= ~0xffff; }
         /* translations on a 1/4 grid: samples land exactly on pixel centres and pixel edges */
-        if (vf_chance (r, 1, 2)) { t->matrix[0][2] = (t->matrix[0][2] & ~0xffff) | (vf_next (r) % 4) * 0x4000; t->matrix[1][2] = (t->matrix[1][2] & ~0xffff) | (vf_next (r) % 4) * 0x4000; }
+        if (vf_chance (r, 1, 2)) { t->matrix[0][2] = (t->matrix[0][2] & ~0xffff) | (vf_next (r) % 4) * 0x4000; t->matrix[1][2] = (t->matrix[1][2] & ~0xffff) | (vf_next (r) % 4) * 0x4000;
+            /* ... and one unit (1/65536) to either side of such a position: the tie-breaking epsilon of the nearest rule, repeat wrap-around at exactly the width */
+            if (vf_chance (r, 1, 3)) t->matrix[0][2] += vf_chance (r, 1, 2) ? 1 : -1;
+            if (vf_chance (r, 1, 5)) t->matrix[1][2] += vf_chance (r, 1, 2) ? 1 : -1; }
         break; }
     case TR_ROT90: t->matrix[0][0] = 0; t->matrix[0][1] = -65536; t->matrix[1][0] = 65536; t->matrix[1][1] = 0;
         t->matrix[0][2] = (pixman_fixed_t)(vf_range (r, 2, 14) * 65536); t->matrix[1][2] = (pixman_fixed_t)(vf_range (r, -3, 3) * 65536); ROT_FRACTION (t, r); break;
